@@ -37,10 +37,13 @@ type ident struct {
 
 // Names maps abstract names to concrete identities and back.
 type Names struct {
-	mu      sync.Mutex
-	seed    int64
-	byName  map[string]*ident
-	reverse map[string]string // concrete (lower-cased) -> abstract
+	mu sync.Mutex
+	// lookalike: (store-level scripts, where no signature is needed) all wallets share their first six and last four
+	// characters, like vanity addresses do: anything that abbreviates account strings must not confuse them
+	lookalike bool
+	seed      int64
+	byName    map[string]*ident
+	reverse   map[string]string // concrete (lower-cased) -> abstract
 }
 
 func newNames(seed int64) *Names {
@@ -68,6 +71,10 @@ func (n *Names) get(name string) *ident {
 		key:    key,
 		nodeID: discv5.PubkeyID(&key.PublicKey).String(),
 		wallet: crypto.PubkeyToAddress(key.PublicKey).Hex(),
+	}
+	if n.lookalike {
+		h := sha256.Sum256([]byte("wallet/" + name))
+		id.wallet = "0x52bc" + fmt.Sprintf("%x", h[:16]) + "E3b5"
 	}
 	n.byName[name] = id
 	n.reverse[id.nodeID] = name
